@@ -1120,10 +1120,6 @@ func (c *ControlPlane) InheritDialerHealthFrom(previous *ControlPlane) bool {
 		if group == nil {
 			continue
 		}
-		oldGroup := previousGroups[group.Name]
-		if oldGroup == nil {
-			continue
-		}
 		floors = append(floors, pendingFloor{group: group, fallback: group.CaptureReloadSelectionFallback()})
 	}
 
@@ -1204,9 +1200,9 @@ func (c *ControlPlane) markReady() {
 	if c == nil {
 		return
 	}
-	verifsim.Yield("control_plane.go:1224")
+	verifsim.Yield("control_plane.go:1222")
 	c.readyOnce.Do(func() {
-		verifsim.Yield("control_plane.go:1225")
+		verifsim.Yield("control_plane.go:1223")
 		close(c.ready)
 	})
 }
@@ -1291,7 +1287,7 @@ func (c *ControlPlane) closePublishedListenerFiles() error {
 	if c == nil {
 		return nil
 	}
-	verifsim.Yield("control_plane.go:1310")
+	verifsim.Yield("control_plane.go:1308")
 
 	c.listenerPublishMu.Lock()
 	files := c.listenerFiles
@@ -1333,7 +1329,7 @@ func (c *ControlPlane) publishListenerSockets(listener *Listener) error {
 			return fmt.Errorf("failed to retrieve copy of the underlying TCP IPv4 listener file")
 		}
 		newFiles = append(newFiles, tcp4File)
-		verifsim.Yield("control_plane.go:1350")
+		verifsim.Yield("control_plane.go:1348")
 		if err = c.core.bpf.Load().ListenSocketMap.Update(consts.ZeroKey, uint64(tcp4File.Fd()), ebpf.UpdateAny); err != nil {
 			closeNewFiles()
 			return err
@@ -1346,7 +1342,7 @@ func (c *ControlPlane) publishListenerSockets(listener *Listener) error {
 			return fmt.Errorf("failed to retrieve copy of the underlying TCP IPv6 listener file")
 		}
 		newFiles = append(newFiles, tcp6File)
-		verifsim.Yield("control_plane.go:1362")
+		verifsim.Yield("control_plane.go:1360")
 		if err = c.core.bpf.Load().ListenSocketMap.Update(consts.TwoKey, uint64(tcp6File.Fd()), ebpf.UpdateAny); err != nil {
 			closeNewFiles()
 			return err
@@ -1359,13 +1355,13 @@ func (c *ControlPlane) publishListenerSockets(listener *Listener) error {
 			return fmt.Errorf("failed to retrieve copy of the underlying UDP connection file")
 		}
 		newFiles = append(newFiles, udpFile)
-		verifsim.Yield("control_plane.go:1374")
+		verifsim.Yield("control_plane.go:1372")
 		if err = c.core.bpf.Load().ListenSocketMap.Update(consts.OneKey, uint64(udpFile.Fd()), ebpf.UpdateAny); err != nil {
 			closeNewFiles()
 			return err
 		}
 	}
-	verifsim.Yield("control_plane.go:1380")
+	verifsim.Yield("control_plane.go:1378")
 
 	c.listenerPublishMu.Lock()
 	oldFiles := c.listenerFiles
@@ -1445,16 +1441,16 @@ func (c *ControlPlane) registerIncomingConnection(conn net.Conn) bool {
 	if c == nil || conn == nil {
 		return false
 	}
-	verifsim.Yield("control_plane.go:1458")
+	verifsim.Yield("control_plane.go:1456")
 	if c.rejectNewConnections.Load() {
 		_ = conn.Close()
 		return false
 	}
-	verifsim.Yield("control_plane.go:1462")
+	verifsim.Yield("control_plane.go:1460")
 	c.inConnections.Store(conn, struct{}{})
-	verifsim.Yield("control_plane.go:1463")
+	verifsim.Yield("control_plane.go:1461")
 	if c.rejectNewConnections.Load() {
-		verifsim.Yield("control_plane.go:1464")
+		verifsim.Yield("control_plane.go:1462")
 		c.inConnections.Delete(conn)
 		_ = conn.Close()
 		return false
@@ -1466,7 +1462,7 @@ func (c *ControlPlane) unregisterIncomingConnection(conn net.Conn) {
 	if c == nil || conn == nil {
 		return
 	}
-	verifsim.Yield("control_plane.go:1475")
+	verifsim.Yield("control_plane.go:1473")
 	c.inConnections.Delete(conn)
 }
 
@@ -1479,7 +1475,7 @@ func (c *ControlPlane) CommitPreparedDatapath() error {
 	}
 	if c.routingKernspaceSnapshot != nil {
 		c.log.Infoln("Loading routing rules into kernel space (BPF)...")
-		verifsim.Yield("control_plane.go:1489")
+		verifsim.Yield("control_plane.go:1487")
 		lpmIndices, err := c.routingKernspaceSnapshot.BuildKernspace(c.log, c.core.bpf.Load())
 		if err != nil {
 			return fmt.Errorf("routing kernspace snapshot: %w", err)
@@ -1487,7 +1483,7 @@ func (c *ControlPlane) CommitPreparedDatapath() error {
 		c.core.lpmTrieIndices = lpmIndices
 	}
 	if c.sharedBpfReload {
-		verifsim.Yield("control_plane.go:1496")
+		verifsim.Yield("control_plane.go:1494")
 		if err := clearReloadDomainRoutingMap(c.core.bpf.Load()); err != nil {
 			return fmt.Errorf("clearReloadDomainRoutingMap: %w", err)
 		}
@@ -1503,13 +1499,13 @@ func (c *ControlPlane) RebuildReloadDatapath() error {
 		return nil
 	}
 	c.log.Warnln("[Reload] Rebuilding previous generation datapath after staged handoff failure")
-	verifsim.Yield("control_plane.go:1513")
+	verifsim.Yield("control_plane.go:1511")
 	lpmIndices, err := c.routingKernspaceSnapshot.BuildKernspace(c.log, c.core.bpf.Load())
 	if err != nil {
 		return fmt.Errorf("rebuild routing kernspace: %w", err)
 	}
 	c.ReplaceLpmIndices(lpmIndices)
-	verifsim.Yield("control_plane.go:1518")
+	verifsim.Yield("control_plane.go:1516")
 	if err := clearReloadDomainRoutingMap(c.core.bpf.Load()); err != nil {
 		return fmt.Errorf("rebuild clearReloadDomainRoutingMap: %w", err)
 	}
@@ -1524,11 +1520,11 @@ func (c *ControlPlane) dnsUpstreamReadyCallback(dnsUpstream *dns.Upstream) (err 
 		c.noteDNSUpstreamAvailable()
 	}
 	{
-		verifsim.Yield("control_plane.go:1532")
+		verifsim.Yield("control_plane.go:1530")
 		_vc8 := c.ctx.Done()
 		_vc9 := c.ready
 		_vi10 := -1
-		for _, _vo11 := range verifsim.SelectOrder("control_plane.go:1532", 2) {
+		for _, _vo11 := range verifsim.SelectOrder("control_plane.go:1530", 2) {
 			switch _vo11 {
 			case 0:
 				select {
@@ -1554,7 +1550,7 @@ func (c *ControlPlane) dnsUpstreamReadyCallback(dnsUpstream *dns.Upstream) (err 
 			case <-_vc9:
 				_vi10 = 1
 			}
-			verifsim.Yield("control_plane.go:1532+")
+			verifsim.Yield("control_plane.go:1530+")
 		}
 		switch _vi10 {
 		case 0:
@@ -1564,7 +1560,7 @@ func (c *ControlPlane) dnsUpstreamReadyCallback(dnsUpstream *dns.Upstream) (err 
 			panic("verifsim: select dispatch: no case chosen")
 		}
 	}
-	verifsim.Yield("control_plane.go:1539")
+	verifsim.Yield("control_plane.go:1537")
 
 	c.onceNetworkReady.Do(func() {
 		for _, out := range c.outbounds {
@@ -1698,7 +1694,7 @@ func (c *ControlPlane) ChooseDialTarget(outbound consts.OutboundIndex, dst netip
 }
 
 func (c *ControlPlane) lookupRealDomainCache(domain string) (known bool, real bool) {
-	verifsim.Yield("control_plane.go:1679")
+	verifsim.Yield("control_plane.go:1677")
 
 	c.muRealDomainSet.RLock()
 	hit := c.realDomainSet.TestString(domain)
@@ -1708,13 +1704,13 @@ func (c *ControlPlane) lookupRealDomainCache(domain string) (known bool, real bo
 	}
 
 	now := time.Now()
-	verifsim.Yield("control_plane.go:1688")
+	verifsim.Yield("control_plane.go:1686")
 	if v, ok := c.realDomainNegSet.Load(domain); ok {
 		expiresAt, _ := v.(int64)
 		if now.UnixNano() < expiresAt {
 			return true, false
 		}
-		verifsim.Yield("control_plane.go:1693")
+		verifsim.Yield("control_plane.go:1691")
 		c.realDomainNegSet.Delete(domain)
 	}
 	return false, false
@@ -1735,12 +1731,12 @@ func (c *ControlPlane) triggerRealDomainProbe(domain string) {
 	if known, _ := c.lookupRealDomainCache(domain); known {
 		return
 	}
-	verifsim.Go("control_plane.go:1713", func() {
-		verifsim.Yield("control_plane.go:1714")
+	verifsim.Go("control_plane.go:1711", func() {
+		verifsim.Yield("control_plane.go:1712")
 		_, _, _ = c.realDomainProbeS.Do(domain, func() (any, error) {
 			return c.probeAndUpdateRealDomain(domain), nil
 		})
-		verifsim.Yield("control_plane.go:1714+")
+		verifsim.Yield("control_plane.go:1712+")
 	})
 }
 
@@ -1771,16 +1767,16 @@ func (c *ControlPlane) probeAndUpdateRealDomain(domain string) bool {
 		return false
 	}
 	if !ip46.Ip4.IsValid() && !ip46.Ip6.IsValid() {
-		verifsim.Yield("control_plane.go:1747")
+		verifsim.Yield("control_plane.go:1745")
 		c.realDomainNegSet.Store(domain, now.Add(realDomainNegativeCacheTTL).UnixNano())
 		return false
 	}
-	verifsim.Yield("control_plane.go:1751")
+	verifsim.Yield("control_plane.go:1749")
 
 	c.muRealDomainSet.Lock()
 	c.realDomainSet.AddString(domain)
 	c.muRealDomainSet.Unlock()
-	verifsim.Yield("control_plane.go:1754")
+	verifsim.Yield("control_plane.go:1752")
 	c.realDomainNegSet.Delete(domain)
 	return true
 }
@@ -1837,12 +1833,12 @@ func (c *ControlPlane) resolveIp46WithBootstrapResolvers(
 
 func (c *ControlPlane) cleanupNegativeCaches(now time.Time) {
 	nowNano := now.UnixNano()
-	verifsim.Yield("control_plane.go:1812")
+	verifsim.Yield("control_plane.go:1810")
 
 	c.realDomainNegSet.Range(func(key, value interface{}) bool {
 		expiresAt, ok := value.(int64)
 		if !ok || nowNano >= expiresAt {
-			verifsim.Yield("control_plane.go:1815")
+			verifsim.Yield("control_plane.go:1813")
 			c.realDomainNegSet.Delete(key)
 		}
 		return true
@@ -1935,7 +1931,7 @@ func (c *ControlPlane) loadDnsDialerSnapshot(key dnsDialerSnapshotKey, now time.
 	if dnsDialerSnapshotTTL <= 0 {
 		return nil, false
 	}
-	verifsim.Yield("control_plane.go:1912")
+	verifsim.Yield("control_plane.go:1910")
 
 	v, ok := c.dnsDialerSnapshot.Load(key)
 	if !ok {
@@ -1944,20 +1940,20 @@ func (c *ControlPlane) loadDnsDialerSnapshot(key dnsDialerSnapshotKey, now time.
 
 	entry, ok := v.(*dnsDialerSnapshotEntry)
 	if !ok {
-		verifsim.Yield("control_plane.go:1919")
+		verifsim.Yield("control_plane.go:1917")
 		c.dnsDialerSnapshot.Delete(key)
 		return nil, false
 	}
 
 	if entry.expiresAtUnixNano <= now.UnixNano() {
-		verifsim.Yield("control_plane.go:1924")
+		verifsim.Yield("control_plane.go:1922")
 		c.dnsDialerSnapshot.CompareAndDelete(key, entry)
 		return nil, false
 	}
 
 	dialArg := entry.dialArg
 	if c.isDnsDialArgPenalized(&dialArg, now) {
-		verifsim.Yield("control_plane.go:1930")
+		verifsim.Yield("control_plane.go:1928")
 		c.dnsDialerSnapshot.CompareAndDelete(key, entry)
 		return nil, false
 	}
@@ -1972,22 +1968,22 @@ func (c *ControlPlane) storeDnsDialerSnapshot(key dnsDialerSnapshotKey, dialArg 
 		expiresAtUnixNano:	now.Add(dnsDialerSnapshotTTL).UnixNano(),
 		dialArg:		*dialArg,
 	}
-	verifsim.Yield("control_plane.go:1944")
+	verifsim.Yield("control_plane.go:1942")
 	c.dnsDialerSnapshot.Store(key, entry)
 }
 
 func (c *ControlPlane) cleanupDnsDialerSnapshot(now time.Time) {
 	nowNano := now.UnixNano()
-	verifsim.Yield("control_plane.go:1949")
+	verifsim.Yield("control_plane.go:1947")
 	c.dnsDialerSnapshot.Range(func(key, value any) bool {
 		entry, ok := value.(*dnsDialerSnapshotEntry)
 		if !ok {
-			verifsim.Yield("control_plane.go:1952")
+			verifsim.Yield("control_plane.go:1950")
 			c.dnsDialerSnapshot.Delete(key)
 			return true
 		}
 		if entry.expiresAtUnixNano <= nowNano {
-			verifsim.Yield("control_plane.go:1956")
+			verifsim.Yield("control_plane.go:1954")
 			c.dnsDialerSnapshot.CompareAndDelete(key, entry)
 		}
 		return true
@@ -1996,16 +1992,16 @@ func (c *ControlPlane) cleanupDnsDialerSnapshot(now time.Time) {
 
 func (c *ControlPlane) cleanupDnsDialerPenalty(now time.Time) {
 	nowNano := now.UnixNano()
-	verifsim.Yield("control_plane.go:1964")
+	verifsim.Yield("control_plane.go:1962")
 	c.dnsDialerPenalty.Range(func(key, value any) bool {
 		entry, ok := value.(*dnsDialerPenaltyEntry)
 		if !ok {
-			verifsim.Yield("control_plane.go:1967")
+			verifsim.Yield("control_plane.go:1965")
 			c.dnsDialerPenalty.Delete(key)
 			return true
 		}
 		if entry.expiresAtUnixNano <= nowNano {
-			verifsim.Yield("control_plane.go:1971")
+			verifsim.Yield("control_plane.go:1969")
 			c.dnsDialerPenalty.CompareAndDelete(key, entry)
 		}
 		return true
@@ -2029,19 +2025,19 @@ func (c *ControlPlane) isDnsDialArgPenalized(dialArg *dialArgument, now time.Tim
 	if !ok {
 		return false
 	}
-	verifsim.Yield("control_plane.go:1994")
+	verifsim.Yield("control_plane.go:1992")
 	value, ok := c.dnsDialerPenalty.Load(key)
 	if !ok {
 		return false
 	}
 	entry, ok := value.(*dnsDialerPenaltyEntry)
 	if !ok {
-		verifsim.Yield("control_plane.go:2000")
+		verifsim.Yield("control_plane.go:1998")
 		c.dnsDialerPenalty.Delete(key)
 		return false
 	}
 	if entry.expiresAtUnixNano <= now.UnixNano() {
-		verifsim.Yield("control_plane.go:2004")
+		verifsim.Yield("control_plane.go:2002")
 		c.dnsDialerPenalty.CompareAndDelete(key, entry)
 		return false
 	}
@@ -2056,26 +2052,26 @@ func (c *ControlPlane) penalizeDnsDialArg(dialArg *dialArgument, now time.Time) 
 	if !ok {
 		return
 	}
-	verifsim.Yield("control_plane.go:2018")
+	verifsim.Yield("control_plane.go:2016")
 	c.dnsDialerPenalty.Store(key, &dnsDialerPenaltyEntry{
 		expiresAtUnixNano: now.Add(dnsDialerPenaltyTTL).UnixNano(),
 	})
 }
 
 func (c *ControlPlane) startRealDomainNegJanitor() {
-	verifsim.Go("control_plane.go:2024", func() {
+	verifsim.Go("control_plane.go:2022", func() {
 		ticker := time.NewTicker(realDomainNegJanitorInterval)
 		defer ticker.Stop()
 		defer close(c.negJanitorDone)
 		for {
 			{
-				verifsim.Yield("control_plane.go:2029")
+				verifsim.Yield("control_plane.go:2027")
 				_vc12 := c.negJanitorStop
 				_vc13 := c.ctx.Done()
 				_vc14 := ticker.C
 				var _vr15 = verifsim.ChanZero(_vc14)
 				_vi16 := -1
-				for _, _vo17 := range verifsim.SelectOrder("control_plane.go:2029", 3) {
+				for _, _vo17 := range verifsim.SelectOrder("control_plane.go:2027", 3) {
 					switch _vo17 {
 					case 0:
 						select {
@@ -2109,7 +2105,7 @@ func (c *ControlPlane) startRealDomainNegJanitor() {
 					case _vr15 = <-_vc14:
 						_vi16 = 2
 					}
-					verifsim.Yield("control_plane.go:2029+")
+					verifsim.Yield("control_plane.go:2027+")
 				}
 				switch _vi16 {
 				case 0:
@@ -2132,21 +2128,21 @@ func (c *ControlPlane) startRealDomainNegJanitor() {
 }
 
 func (c *ControlPlane) stopRealDomainNegJanitor() {
-	verifsim.Yield("control_plane.go:2044")
+	verifsim.Yield("control_plane.go:2042")
 	c.negJanitorOnce.Do(func() {
 		if c.negJanitorStop != nil {
-			verifsim.Yield("control_plane.go:2046")
+			verifsim.Yield("control_plane.go:2044")
 			close(c.negJanitorStop)
 		}
 		if c.negJanitorDone != nil {
 			timer := time.NewTimer(gracefulShutdownWaitTimeout)
 			defer timer.Stop()
 			{
-				verifsim.Yield("control_plane.go:2051")
+				verifsim.Yield("control_plane.go:2049")
 				_vc18 := c.negJanitorDone
 				_vc19 := timer.C
 				_vi20 := -1
-				for _, _vo21 := range verifsim.SelectOrder("control_plane.go:2051", 2) {
+				for _, _vo21 := range verifsim.SelectOrder("control_plane.go:2049", 2) {
 					switch _vo21 {
 					case 0:
 						select {
@@ -2172,7 +2168,7 @@ func (c *ControlPlane) stopRealDomainNegJanitor() {
 					case <-_vc19:
 						_vi20 = 1
 					}
-					verifsim.Yield("control_plane.go:2051+")
+					verifsim.Yield("control_plane.go:2049+")
 				}
 				switch _vi20 {
 				case 0:
@@ -2188,11 +2184,11 @@ func (c *ControlPlane) stopRealDomainNegJanitor() {
 }
 
 func (c *ControlPlane) startConnStateJanitor() {
-	verifsim.Yield("control_plane.go:2065")
+	verifsim.Yield("control_plane.go:2063")
 	if c == nil || !c.connStateJanitorStarted.CompareAndSwap(false, true) {
 		return
 	}
-	verifsim.Go("control_plane.go:2068", func() {
+	verifsim.Go("control_plane.go:2066", func() {
 		ticker := time.NewTicker(connStateJanitorPressureInterval)
 		defer ticker.Stop()
 		defer close(c.connStateJanitorDone)
@@ -2208,13 +2204,13 @@ func (c *ControlPlane) startConnStateJanitor() {
 
 		for {
 			{
-				verifsim.Yield("control_plane.go:2083")
+				verifsim.Yield("control_plane.go:2081")
 				_vc22 := c.connStateJanitorStop
 				_vc23 := c.ctx.Done()
 				_vc24 := ticker.C
 				var _vr25 = verifsim.ChanZero(_vc24)
 				_vi26 := -1
-				for _, _vo27 := range verifsim.SelectOrder("control_plane.go:2083", 3) {
+				for _, _vo27 := range verifsim.SelectOrder("control_plane.go:2081", 3) {
 					switch _vo27 {
 					case 0:
 						select {
@@ -2248,7 +2244,7 @@ func (c *ControlPlane) startConnStateJanitor() {
 					case _vr25 = <-_vc24:
 						_vi26 = 2
 					}
-					verifsim.Yield("control_plane.go:2083+")
+					verifsim.Yield("control_plane.go:2081+")
 				}
 				switch _vi26 {
 				case 0:
@@ -2326,7 +2322,7 @@ func (c *ControlPlane) RunReloadRetirementCleanup(staleBeforeNs uint64) {
 	if c == nil || staleBeforeNs == 0 {
 		return
 	}
-	verifsim.Yield("control_plane.go:2154")
+	verifsim.Yield("control_plane.go:2152")
 
 	c.connStateCleanupMu.Lock()
 	verifsim.Locked()
@@ -2357,25 +2353,25 @@ func (c *ControlPlane) RunReloadRetirementCleanup(staleBeforeNs uint64) {
 }
 
 func (c *ControlPlane) stopConnStateJanitor() {
-	verifsim.Yield("control_plane.go:2183")
+	verifsim.Yield("control_plane.go:2181")
 	if c == nil || !c.connStateJanitorStarted.Load() {
 		return
 	}
-	verifsim.Yield("control_plane.go:2186")
+	verifsim.Yield("control_plane.go:2184")
 	verifsim.OnceDo(&c.connStateJanitorOnce, func() {
 		if c.connStateJanitorStop != nil {
-			verifsim.Yield("control_plane.go:2188")
+			verifsim.Yield("control_plane.go:2186")
 			close(c.connStateJanitorStop)
 		}
 		if c.connStateJanitorDone != nil {
 			timer := time.NewTimer(gracefulShutdownWaitTimeout)
 			defer timer.Stop()
 			{
-				verifsim.Yield("control_plane.go:2193")
+				verifsim.Yield("control_plane.go:2191")
 				_vc28 := c.connStateJanitorDone
 				_vc29 := timer.C
 				_vi30 := -1
-				for _, _vo31 := range verifsim.SelectOrder("control_plane.go:2193", 2) {
+				for _, _vo31 := range verifsim.SelectOrder("control_plane.go:2191", 2) {
 					switch _vo31 {
 					case 0:
 						select {
@@ -2401,7 +2397,7 @@ func (c *ControlPlane) stopConnStateJanitor() {
 					case <-_vc29:
 						_vi30 = 1
 					}
-					verifsim.Yield("control_plane.go:2193+")
+					verifsim.Yield("control_plane.go:2191+")
 				}
 				switch _vi30 {
 				case 0:
@@ -2419,7 +2415,7 @@ func (c *ControlPlane) stopConnStateJanitor() {
 const redirectTrackTimeout = 5 * time.Minute
 
 func (c *ControlPlane) cleanupRedirectTrackMap() int {
-	verifsim.Yield("control_plane.go:2213")
+	verifsim.Yield("control_plane.go:2211")
 	c.connStateCleanupMu.Lock()
 	verifsim.Locked()
 	defer verifsim.DeferUnlock(c.connStateCleanupMu.Unlock)
@@ -2428,10 +2424,10 @@ func (c *ControlPlane) cleanupRedirectTrackMap() int {
 
 func (c *ControlPlane) cleanupRedirectTrackMapBeforeLocked(staleBeforeNs uint64) int {
 	{
-		verifsim.Yield("control_plane.go:2220")
+		verifsim.Yield("control_plane.go:2218")
 		_vc32 := c.connStateJanitorStop
 		_vi33 := -1
-		for _, _vo34 := range verifsim.SelectOrder("control_plane.go:2220", 1) {
+		for _, _vo34 := range verifsim.SelectOrder("control_plane.go:2218", 1) {
 			switch _vo34 {
 			case 0:
 				select {
@@ -2529,7 +2525,7 @@ func (c *ControlPlane) cleanupRedirectTrackMapBeforeLocked(staleBeforeNs uint64)
 }
 
 func (c *ControlPlane) cleanupCookiePidMap() int {
-	verifsim.Yield("control_plane.go:2307")
+	verifsim.Yield("control_plane.go:2305")
 	c.connStateCleanupMu.Lock()
 	verifsim.Locked()
 	defer verifsim.DeferUnlock(c.connStateCleanupMu.Unlock)
@@ -2538,10 +2534,10 @@ func (c *ControlPlane) cleanupCookiePidMap() int {
 
 func (c *ControlPlane) cleanupCookiePidMapBeforeLocked(staleBeforeNs uint64) int {
 	{
-		verifsim.Yield("control_plane.go:2313")
+		verifsim.Yield("control_plane.go:2311")
 		_vc35 := c.connStateJanitorStop
 		_vi36 := -1
-		for _, _vo37 := range verifsim.SelectOrder("control_plane.go:2313", 1) {
+		for _, _vo37 := range verifsim.SelectOrder("control_plane.go:2311", 1) {
 			switch _vo37 {
 			case 0:
 				select {
@@ -2624,7 +2620,7 @@ func (c *ControlPlane) cleanupCookiePidMapBeforeLocked(staleBeforeNs uint64) int
 }
 
 func (c *ControlPlane) cleanupRoutingHandoffMap() int {
-	verifsim.Yield("control_plane.go:2385")
+	verifsim.Yield("control_plane.go:2383")
 	c.connStateCleanupMu.Lock()
 	verifsim.Locked()
 	defer verifsim.DeferUnlock(c.connStateCleanupMu.Unlock)
@@ -2633,10 +2629,10 @@ func (c *ControlPlane) cleanupRoutingHandoffMap() int {
 
 func (c *ControlPlane) cleanupRoutingHandoffMapBeforeLocked(staleBeforeNs uint64) int {
 	{
-		verifsim.Yield("control_plane.go:2391")
+		verifsim.Yield("control_plane.go:2389")
 		_vc38 := c.connStateJanitorStop
 		_vi39 := -1
-		for _, _vo40 := range verifsim.SelectOrder("control_plane.go:2391", 1) {
+		for _, _vo40 := range verifsim.SelectOrder("control_plane.go:2389", 1) {
 			switch _vo40 {
 			case 0:
 				select {
@@ -2716,7 +2712,7 @@ func (c *ControlPlane) cleanupRoutingHandoffMapBeforeLocked(staleBeforeNs uint64
 }
 
 func (c *ControlPlane) cleanupConnStateMap(aggressiveCleanup bool) (udpStats, tcpStats mapCleanupStats) {
-	verifsim.Yield("control_plane.go:2461")
+	verifsim.Yield("control_plane.go:2459")
 	c.connStateCleanupMu.Lock()
 	verifsim.Locked()
 	defer verifsim.DeferUnlock(c.connStateCleanupMu.Unlock)
@@ -2725,10 +2721,10 @@ func (c *ControlPlane) cleanupConnStateMap(aggressiveCleanup bool) (udpStats, tc
 
 func (c *ControlPlane) cleanupConnStateMapBeforeLocked(aggressiveCleanup bool, staleBeforeNs uint64) (udpStats, tcpStats mapCleanupStats) {
 	{
-		verifsim.Yield("control_plane.go:2467")
+		verifsim.Yield("control_plane.go:2465")
 		_vc41 := c.connStateJanitorStop
 		_vi42 := -1
-		for _, _vo43 := range verifsim.SelectOrder("control_plane.go:2467", 1) {
+		for _, _vo43 := range verifsim.SelectOrder("control_plane.go:2465", 1) {
 			switch _vo43 {
 			case 0:
 				select {
@@ -2915,10 +2911,10 @@ func (c *ControlPlane) checkBpfMapHealth(udpOverflow, tcpOverflow uint64) {
 	if udpOverflow > 0 || tcpOverflow > 0 {
 
 		nowNano := now.UnixNano()
-		verifsim.Yield("control_plane.go:2645")
+		verifsim.Yield("control_plane.go:2643")
 		last := c.lastBpfOverflowAlertTime.Load()
 		if last == 0 || last+int64(alertCooldown) < nowNano {
-			verifsim.Yield("control_plane.go:2647")
+			verifsim.Yield("control_plane.go:2645")
 			if c.lastBpfOverflowAlertTime.CompareAndSwap(last, nowNano) {
 				c.log.Warnf("BPF map overflow detected: UDP conn state=%d, TCP conn state=%d. "+
 					"Some packets are falling back to slower paths. Check if map capacity is adequate.",
@@ -2938,10 +2934,10 @@ func (c *ControlPlane) checkBpfMapHealth(udpOverflow, tcpOverflow uint64) {
 
 	if udpOverflow > 100 {
 		nowNano := now.UnixNano()
-		verifsim.Yield("control_plane.go:2668")
+		verifsim.Yield("control_plane.go:2666")
 		last := c.lastUdpPressureAlertTime.Load()
 		if last == 0 || last+int64(alertCooldown) < nowNano {
-			verifsim.Yield("control_plane.go:2670")
+			verifsim.Yield("control_plane.go:2668")
 			if c.lastUdpPressureAlertTime.CompareAndSwap(last, nowNano) {
 				c.log.Errorf("CRITICAL: UDP conn state map is under heavy pressure (overflow=%d). "+
 					"Configured capacity=%d. Consider increasing conn_state_map capacity or reducing UDP connection timeout.",
@@ -2951,10 +2947,10 @@ func (c *ControlPlane) checkBpfMapHealth(udpOverflow, tcpOverflow uint64) {
 	}
 	if tcpOverflow > 100 {
 		nowNano := now.UnixNano()
-		verifsim.Yield("control_plane.go:2679")
+		verifsim.Yield("control_plane.go:2677")
 		last := c.lastTcpPressureAlertTime.Load()
 		if last == 0 || last+int64(alertCooldown) < nowNano {
-			verifsim.Yield("control_plane.go:2681")
+			verifsim.Yield("control_plane.go:2679")
 			if c.lastTcpPressureAlertTime.CompareAndSwap(last, nowNano) {
 				c.log.Errorf("CRITICAL: TCP conn state map is under heavy pressure (overflow=%d). "+
 					"Configured capacity=%d. Consider increasing conn_state_map capacity or reducing TCP connection timeout.",
@@ -2980,12 +2976,12 @@ func (c *ControlPlane) readMapOverflowCounters(m *ebpf.Map) (udpOverflow uint64,
 func (c *ControlPlane) allowDnsFastPathErrorLog(now time.Time) bool {
 	nowNano := now.UnixNano()
 	for {
-		verifsim.Yield("control_plane.go:2706")
+		verifsim.Yield("control_plane.go:2704")
 		last := c.lastDnsFastPathErrorLogTime.Load()
 		if nowNano-last < int64(dnsFastPathErrorLogInterval) {
 			return false
 		}
-		verifsim.Yield("control_plane.go:2710")
+		verifsim.Yield("control_plane.go:2708")
 		if c.lastDnsFastPathErrorLogTime.CompareAndSwap(last, nowNano) {
 			return true
 		}
@@ -2995,12 +2991,12 @@ func (c *ControlPlane) allowDnsFastPathErrorLog(now time.Time) bool {
 func (c *ControlPlane) allowDnsFastPathServfailLog(now time.Time) bool {
 	nowNano := now.UnixNano()
 	for {
-		verifsim.Yield("control_plane.go:2719")
+		verifsim.Yield("control_plane.go:2717")
 		last := c.lastDnsFastPathServfailLogTime.Load()
 		if nowNano-last < int64(dnsFastPathErrorLogInterval) {
 			return false
 		}
-		verifsim.Yield("control_plane.go:2723")
+		verifsim.Yield("control_plane.go:2721")
 		if c.lastDnsFastPathServfailLogTime.CompareAndSwap(last, nowNano) {
 			return true
 		}
@@ -3253,10 +3249,10 @@ func (c *ControlPlane) Serve(readyChan chan<- bool, listener *Listener) (err err
 	defer func() {
 		if !sentReady {
 			{
-				verifsim.Yield("control_plane.go:2983")
+				verifsim.Yield("control_plane.go:2981")
 				_vc44 := readyChan
 				_vi45 := -1
-				for _, _vo46 := range verifsim.SelectOrder("control_plane.go:2983", 1) {
+				for _, _vo46 := range verifsim.SelectOrder("control_plane.go:2981", 1) {
 					switch _vo46 {
 					case 0:
 						select {
@@ -3291,10 +3287,10 @@ func (c *ControlPlane) Serve(readyChan chan<- bool, listener *Listener) (err err
 	c.markReady()
 	sentReady = true
 	{
-		verifsim.Yield("control_plane.go:3002")
+		verifsim.Yield("control_plane.go:3000")
 		_vc47 := readyChan
 		_vi48 := -1
-		for _, _vo49 := range verifsim.SelectOrder("control_plane.go:3002", 1) {
+		for _, _vo49 := range verifsim.SelectOrder("control_plane.go:3000", 1) {
 			switch _vo49 {
 			case 0:
 				select {
@@ -3316,10 +3312,10 @@ func (c *ControlPlane) Serve(readyChan chan<- bool, listener *Listener) (err err
 	serveTCP := func(tcpListener net.Listener) {
 		for {
 			{
-				verifsim.Yield("control_plane.go:3008")
+				verifsim.Yield("control_plane.go:3006")
 				_vc50 := c.ctx.Done()
 				_vi51 := -1
-				for _, _vo52 := range verifsim.SelectOrder("control_plane.go:3008", 1) {
+				for _, _vo52 := range verifsim.SelectOrder("control_plane.go:3006", 1) {
 					switch _vo52 {
 					case 0:
 						select {
@@ -3365,7 +3361,7 @@ func (c *ControlPlane) Serve(readyChan chan<- bool, listener *Listener) (err err
 				}
 				_va54 := lconn
 				_va55 := drainRelease
-				verifsim.Go("control_plane.go:3025", func() {
+				verifsim.Go("control_plane.go:3023", func() {
 					_vf53(_va54, _va55)
 				})
 			}
@@ -3374,18 +3370,18 @@ func (c *ControlPlane) Serve(readyChan chan<- bool, listener *Listener) (err err
 	{
 		_vf56 := serveTCP
 		_va57 := listener.tcp4Listener
-		verifsim.Go("control_plane.go:3040", func() {
+		verifsim.Go("control_plane.go:3038", func() {
 			_vf56(_va57)
 		})
 	}
 	{
 		_vf58 := serveTCP
 		_va59 := listener.tcp6Listener
-		verifsim.Go("control_plane.go:3041", func() {
+		verifsim.Go("control_plane.go:3039", func() {
 			_vf58(_va59)
 		})
 	}
-	verifsim.Go("control_plane.go:3042", func() {
+	verifsim.Go("control_plane.go:3040", func() {
 		processPacket := func(pktBuf pool.PB, src netip.AddrPort, oob []byte) {
 			pktDst := RetrieveOriginalDest(oob)
 			realDst := common.ConvergeAddrPort(pktDst)
@@ -3583,7 +3579,7 @@ func (c *ControlPlane) Serve(readyChan chan<- bool, listener *Listener) (err err
 			case StrategyDirectGoroutine:
 				{
 					_vf60 := task
-					verifsim.Go("control_plane.go:3259", func() {
+					verifsim.Go("control_plane.go:3257", func() {
 						_vf60()
 					})
 				}
@@ -3605,10 +3601,10 @@ func (c *ControlPlane) Serve(readyChan chan<- bool, listener *Listener) (err err
 
 			for {
 				{
-					verifsim.Yield("control_plane.go:3279")
+					verifsim.Yield("control_plane.go:3277")
 					_vc61 := c.ctx.Done()
 					_vi62 := -1
-					for _, _vo63 := range verifsim.SelectOrder("control_plane.go:3279", 1) {
+					for _, _vo63 := range verifsim.SelectOrder("control_plane.go:3277", 1) {
 						switch _vo63 {
 						case 0:
 							select {
@@ -3650,10 +3646,10 @@ func (c *ControlPlane) Serve(readyChan chan<- bool, listener *Listener) (err err
 		var oob [udpIngressOobSize]byte
 		for {
 			{
-				verifsim.Yield("control_plane.go:3308")
+				verifsim.Yield("control_plane.go:3306")
 				_vc64 := c.ctx.Done()
 				_vi65 := -1
-				for _, _vo66 := range verifsim.SelectOrder("control_plane.go:3308", 1) {
+				for _, _vo66 := range verifsim.SelectOrder("control_plane.go:3306", 1) {
 					switch _vo66 {
 					case 0:
 						select {
@@ -3687,10 +3683,10 @@ func (c *ControlPlane) Serve(readyChan chan<- bool, listener *Listener) (err err
 		}
 	})
 	c.ActivateCheck()
-	verifsim.Yield("control_plane.go:3331")
+	verifsim.Yield("control_plane.go:3329")
 	<-c.ctx.Done()
-	verifsim.Yield("control_plane.go:3331+")
-	verifsim.Yield("control_plane.go:3335")
+	verifsim.Yield("control_plane.go:3329+")
+	verifsim.Yield("control_plane.go:3333")
 
 	ctxErr := c.ctx.Err()
 	if ctxErr != nil {
@@ -3875,11 +3871,11 @@ func (c *ControlPlane) AbortConnections() (err error) {
 	if c == nil {
 		return nil
 	}
-	verifsim.Yield("control_plane.go:3521")
+	verifsim.Yield("control_plane.go:3519")
 	c.rejectNewConnections.Store(true)
 
 	var errs []error
-	verifsim.Yield("control_plane.go:3524")
+	verifsim.Yield("control_plane.go:3522")
 	c.inConnections.Range(func(key, value any) bool {
 
 		conn, ok := key.(net.Conn)
@@ -3891,7 +3887,7 @@ func (c *ControlPlane) AbortConnections() (err error) {
 		if cerr := conn.Close(); cerr != nil {
 			errs = append(errs, cerr)
 		}
-		verifsim.Yield("control_plane.go:3535")
+		verifsim.Yield("control_plane.go:3533")
 		c.inConnections.Delete(key)
 		return true
 	})
@@ -3910,7 +3906,7 @@ func (c *ControlPlane) MarkRetired() {
 	if c == nil || c.core == nil {
 		return
 	}
-	verifsim.Yield("control_plane.go:3563")
+	verifsim.Yield("control_plane.go:3561")
 	c.core.retired.Store(true)
 }
 
@@ -3930,22 +3926,22 @@ func (c *ControlPlane) closeTail() error {
 			errs = append(errs, e)
 		}
 	}
-	verifsim.Yield("control_plane.go:3587")
+	verifsim.Yield("control_plane.go:3585")
 
 	c.realDomainNegSet.Range(func(key, value any) bool {
-		verifsim.Yield("control_plane.go:3588")
+		verifsim.Yield("control_plane.go:3586")
 		c.realDomainNegSet.Delete(key)
 		return true
 	})
-	verifsim.Yield("control_plane.go:3591")
+	verifsim.Yield("control_plane.go:3589")
 	c.dnsDialerSnapshot.Range(func(key, value any) bool {
-		verifsim.Yield("control_plane.go:3592")
+		verifsim.Yield("control_plane.go:3590")
 		c.dnsDialerSnapshot.Delete(key)
 		return true
 	})
-	verifsim.Yield("control_plane.go:3595")
+	verifsim.Yield("control_plane.go:3593")
 	c.dnsDialerPenalty.Range(func(key, value any) bool {
-		verifsim.Yield("control_plane.go:3596")
+		verifsim.Yield("control_plane.go:3594")
 		c.dnsDialerPenalty.Delete(key)
 		return true
 	})
@@ -3979,7 +3975,7 @@ func (c *ControlPlane) releaseRetainedState() {
 	if handoff, owned := c.takeDNSHandoffController(); owned && handoff != nil {
 		_ = handoff.Close()
 	}
-	verifsim.Yield("control_plane.go:3640")
+	verifsim.Yield("control_plane.go:3638")
 	c.muRealDomainSet.Lock()
 	c.realDomainSet = nil
 	c.muRealDomainSet.Unlock()
@@ -3988,7 +3984,7 @@ func (c *ControlPlane) releaseRetainedState() {
 	c.lanInterface = nil
 	c.udpUnorderedRunner = nil
 	c.failedQuicDcidCache = nil
-	verifsim.Yield("control_plane.go:3648")
+	verifsim.Yield("control_plane.go:3646")
 	c.listenerPublishMu.Lock()
 	c.listenerFiles = nil
 	c.listenerPublishMu.Unlock()
@@ -4001,7 +3997,7 @@ func (c *ControlPlane) Close() (err error) {
 	if c == nil {
 		return nil
 	}
-	verifsim.Yield("control_plane.go:3661")
+	verifsim.Yield("control_plane.go:3659")
 
 	c.closeOnce.Do(func() {
 		c.unpublishRuntimeStats()
@@ -4010,36 +4006,36 @@ func (c *ControlPlane) Close() (err error) {
 		}
 
 		var stopWg sync.WaitGroup
-		verifsim.Yield("control_plane.go:3668")
+		verifsim.Yield("control_plane.go:3666")
 		stopWg.Add(2)
-		verifsim.Go("control_plane.go:3669", func() {
+		verifsim.Go("control_plane.go:3667", func() {
 			defer stopWg.Done()
 			c.stopRealDomainNegJanitor()
 		})
-		verifsim.Go("control_plane.go:3673", func() {
+		verifsim.Go("control_plane.go:3671", func() {
 			defer stopWg.Done()
 			c.stopConnStateJanitor()
 		})
-		verifsim.Yield("control_plane.go:3677")
+		verifsim.Yield("control_plane.go:3675")
 		stopWg.Wait()
-		verifsim.Yield("control_plane.go:3677+")
+		verifsim.Yield("control_plane.go:3675+")
 
 		done := make(chan error, 1)
-		verifsim.Go("control_plane.go:3680", func() {
-			verifsim.Yield("control_plane.go:3681")
+		verifsim.Go("control_plane.go:3678", func() {
+			verifsim.Yield("control_plane.go:3679")
 			done <- c.closeTail()
-			verifsim.Yield("control_plane.go:3681+")
+			verifsim.Yield("control_plane.go:3679+")
 		})
 
 		timer := time.NewTimer(controlPlaneDeferredCleanupTimeout)
 		defer timer.Stop()
 		{
-			verifsim.Yield("control_plane.go:3687")
+			verifsim.Yield("control_plane.go:3685")
 			_vc67 := done
 			var _vr68 = verifsim.ChanZero(_vc67)
 			_vc69 := timer.C
 			_vi70 := -1
-			for _, _vo71 := range verifsim.SelectOrder("control_plane.go:3687", 2) {
+			for _, _vo71 := range verifsim.SelectOrder("control_plane.go:3685", 2) {
 				switch _vo71 {
 				case 0:
 					select {
@@ -4065,7 +4061,7 @@ func (c *ControlPlane) Close() (err error) {
 				case <-_vc69:
 					_vi70 = 1
 				}
-				verifsim.Yield("control_plane.go:3687+")
+				verifsim.Yield("control_plane.go:3685+")
 			}
 			switch _vi70 {
 			case 0:
